@@ -1,12 +1,12 @@
 SPECIFICATION Spec
 CONSTANTS
   TreeSet <- Trees2
-  OptSet <- OptsC
+  OptSet <- OptsA
   MaxBackups = 2
   MaxDeletes = 1
-  MaxFaults = 1
-  AllowCrash = FALSE
-  AllowEmptyLeftover = FALSE
+  MaxFaults = 0
+  AllowCrash = TRUE
+  AllowEmptyLeftover = TRUE
   AllowTornRmdir = FALSE
   CombinerClearsQueueOnFailedFlush = TRUE
   Hash <- HashId
@@ -14,7 +14,7 @@ CONSTANTS
   BkRechecksLock = TRUE
   AllowConcurrent = FALSE
   GcStopsOnUnreadableHunk = TRUE
-  GcBandsBeforeBlocks = TRUE
-INVARIANTS Inv_Format Inv_NoDangling Inv_SnapRestores Inv_RecordedBytes Inv_CompleteSuccess Inv_SkippedReported Inv_GcExact
+  GcBandsBeforeBlocks = FALSE
+INVARIANTS Inv_Format Inv_NoDangling Inv_SnapRestores Inv_RecordedBytes Inv_CompleteSuccess Inv_SkippedReported Inv_UnchangedStoresNothing Inv_GcExact
 PROPERTIES Prop_WriteOnce
 CHECK_DEADLOCK FALSE
